@@ -225,3 +225,64 @@ pub fn eval_dp(case: &J) -> Outcome {
     }
     out
 }
+
+/// `oracle dump dialectfns`: every scalar function the library knows × every translator: is `SELECT f(args) FROM tf` rendered
+/// without panic, accepted by the dialect's parser, read back without error and with the same output type?  Exhaustive (no
+/// sampling): the translator `tools/tr_dialectfns.py` turns the non-ok entries into a Lean table and the theorem
+/// `C17.generated_functions_readable` compares it with the list of recorded exceptions.
+fn fn_relation(name: &str) -> Option<(Relation, qrlew::hierarchy::Hierarchy<std::sync::Arc<Relation>>)> {
+    use qrlew::{builder::{Ready, With}, DataType};
+    use std::sync::Arc;
+    let tf: Relation = Relation::table().name("tf").schema(vec![("i", DataType::integer_interval(1, 10)), ("f", DataType::float_interval(1., 10.)), ("t", DataType::text()), ("b", DataType::boolean()),
+        ("d", DataType::date_time())].into_iter().collect::<qrlew::relation::Schema>()).size(100).build();
+    let rels: qrlew::hierarchy::Hierarchy<Arc<Relation>> = vec![(vec!["tf".to_string()], Arc::new(tf.clone()))].into_iter().collect();
+    let (_, f, cat) = crate::s_fn::function_table().into_iter().find(|(n, _, _)| *n == name)?;
+    let args: Vec<Arc<Expr>> = cat.chars().map(|c| Arc::new(Expr::col(match c { 'n' => "f", 'i' | 'c' | 'x' => "i", 'b' => "b", 't' => "t", 'd' => "d", _ => "i" }))).collect();
+    let e = Expr::Function(qrlew::expr::Function::new(f, args));
+    match guarded(|| -> Result<Relation, String> { Relation::map().with(("r", e.clone())).input(tf.clone()).try_build().map_err(|e: qrlew::relation::Error| e.to_string()) }) { Ok(Ok(r)) => Some((r, rels)), _ => None }
+}
+
+fn fn_status(rel: &Relation, rels: &qrlew::hierarchy::Hierarchy<std::sync::Arc<Relation>>, d: &str) -> (String, String) {
+    let want = rel.schema()[0].data_type().to_string();
+    let r = per_dialect_in(rel, d, rels);
+    let text = r.text.clone().unwrap_or_default();
+    let status = match (&r.text, &r.accepted, &r.readback) {
+        (Err(_), _, _) => "render-panic".to_string(),
+        (Ok(_), Err(_), _) => "not-accepted".to_string(),
+        (Ok(_), Ok(()), None) => "ok".to_string(),
+        (Ok(_), Ok(()), Some(Err(_))) => "readback-panic".to_string(),
+        (Ok(_), Ok(()), Some(Ok(Err(_)))) => "readback-error".to_string(),
+        (Ok(_), Ok(()), Some(Ok(Ok(r2)))) => { let got = r2.schema().iter().next().map(|f| f.data_type().to_string()).unwrap_or_default(); if got == want || crate::s_determ::same_modulo_type_structure(rel, r2) { "ok".to_string() } else { "readback-type".to_string() } }
+    };
+    (status, text)
+}
+
+/// stream `dialectfns`: case k is the k-th function of the table: the run is exhaustive over functions × translators
+pub fn gen_fns(_rng: &mut Rng, k: usize, _tier: &str) -> J {
+    let t = crate::s_fn::function_table();
+    json!({"function": t[k % t.len()].0})
+}
+
+pub fn eval_fns(case: &J) -> Outcome {
+    let mut out = Outcome::new();
+    let name = case["function"].as_str().unwrap();
+    let Some((rel, rels)) = fn_relation(name) else { out.tag("trivial"); out.tag("not-buildable"); return out; };
+    for d in DIALECTS {
+        let (status, text) = fn_status(&rel, &rels, d);
+        if status == "ok" { out.tag(&format!("ok={d}")); continue; }
+        let prop = if status.ends_with("panic") { "C18" } else { "C17" };
+        out.fail(&format!("{prop}/dialectfns/{d}/{status}/{name}"), format!("SELECT {name}(…) AS r FROM tf rendered for {d} as `{text}`: {status}"));
+    }
+    out
+}
+
+pub fn dump_dialect_fns() -> J {
+    let mut rows = vec![];
+    for (name, _, _) in crate::s_fn::function_table() {
+        match fn_relation(name) {
+            None => { for d in DIALECTS { rows.push(json!([d, name, "not-buildable"])); } }
+            Some((rel, rels)) => { for d in DIALECTS { rows.push(json!([d, name, fn_status(&rel, &rels, d).0])); } }
+        }
+    }
+    json!({"functions": rows})
+}
